@@ -891,4 +891,51 @@ theorem totalElements_ok {s : S} {t : T} (hrel : Rel s t) (hw : WFA t) : totalEl
   unfold totalElements
   rw [hw.length_items, ← hrel.last, hrel.L, hrel.size]
 
+
+
+theorem repairItems_noop (loc : Nat) : ∀ (items : List Item) (s : S),
+    (∀ x ∈ items, ∃ l, s.st.locs.get x.id = some l) → repairItems loc items s = s := by
+  intro items
+  induction items with
+  | nil => intro s _; rfl
+  | cons x r ih =>
+    intro s h
+    obtain ⟨l, hl⟩ := h x (by simp)
+    simp only [repairItems, hl]
+    exact ih s (fun y hy => h y (by simp [hy]))
+
+theorem repairAux_ok {t : T} (hw : WFA t) :
+    ∀ (n i : Nat) (s : S), CI s → Rel s t → i + n = t.L →
+      ∃ s', repairAux n i s = (s', .ok ()) ∧ CI s' ∧ Rel s' t ∧ s'.st = s.st := by
+  intro n
+  induction n with
+  | zero => intro i s hci hrel _; exact ⟨s, rfl, hci, hrel, rfl⟩
+  | succ n ih =>
+    intro i s hci hrel hin
+    obtain ⟨s1, r, hg, hci1, hrel1, hr, hitems⟩ := getPartition_ok hci hrel (i := i) (by omega)
+    have hst : s1.st = s.st := by
+      unfold getPartition at hg
+      split at hg
+      · simp at hg
+      · split at hg
+        · simp at hg; rw [← hg.1]
+        · split at hg
+          · simp at hg; rw [← hg.1]
+          · split at hg
+            · simp at hg
+            · simp at hg; rw [← hg.1]
+    simp only [repairAux, hg]
+    rw [repairItems_noop]
+    · obtain ⟨s', hs', hci', hrel', hst'⟩ := ih (i + 1) s1 hci1 hrel1 (by omega)
+      exact ⟨s', hs', hci', hrel', by rw [hst', hst]⟩
+    · intro x hx
+      rw [hitems] at hx
+      exact ⟨i, by rw [← hrel1.loc]; exact hw.loc_complete i (by omega) x hx⟩
+
+/-- `RepairPartitionLoc` changes nothing in the store of a well-formed state (it only loads partitions) -/
+theorem repair_ok {s : S} {t : T} (hci : CI s) (hrel : Rel s t) (hw : WFA t) :
+    ∃ s', repairPartitionLoc s = (s', .ok ()) ∧ CI s' ∧ Rel s' t ∧ s'.st = s.st := by
+  unfold repairPartitionLoc
+  exact repairAux_ok hw _ 0 s hci hrel (by rw [hrel.L]; omega)
+
 end ZChain.Partitions
